@@ -864,6 +864,8 @@ fn oracle_matrix(rng: &mut Rng, rep: &mut Report, thorough: bool) {
 pub fn oracle(rng: &mut Rng, tier: &str, rep: &mut Report) {
     let thorough = tier == "thorough";
     oracle_matrix(rng, rep, thorough);
+    oracle_from_iterable(rng, rep);
+    oracle_aliases(rng, rep);
 
     // ---- non-usize symbol types ------------------------------------------------------------
     let to_i16 = |l: usize| (l as i64 - 3000) as i16;
